@@ -25,7 +25,8 @@ RULE = ('histories on one established DBusClientConnection (in-memory transport,
         'first; descending field order with an unknown field in the middle; unknown variant-typed field plus flag bit 0x4). '
         'close_req: the application asks for the close and the transport lingers (replies keep arriving until the loss); sync '
         'calls are answered by a peer in the same process while transport.write() is still on the stack. Every third reply arrives '
-        'glued behind a duplicate of the previous one and cut 20 bytes before its end (two reads).')
+        'glued behind a duplicate of the previous one and cut 20 bytes before its end (two reads). fd_replies: replies carrying UNIX '
+        'descriptors, in every order. The flags byte of each call is checked against expectReply and the autoStart default.')
 ASSUMPTIONS = ['timeout=0 / 0.0 / None all mean "no deadline" (what callRemote documents and does); all three spellings are generated',
                'user callbacks attached by the harness do not raise or re-enter']
 
@@ -544,12 +545,66 @@ def run_resend(case):
     return out
 
 
+def enum_fd_replies(tier):
+    """Replies that carry UNIX descriptors (values of type h): each call completes with the descriptor its OWN reply
+    brought, in every order of the replies, descriptors delivered ahead of all bytes or just before their message."""
+    for n in (2, 3):
+        for order in itertools.permutations(range(n)):
+            for early in (False, True):
+                for kind in ('h', 'hs', 'ah'):
+                    yield {'n': n, 'order': list(order), 'early': early, 'kind': kind}
+
+
+def run_fd_replies(case):
+    try:
+        rig = N.ClientRig(unix=True)
+    except N.RigFailure as e:
+        return [Disc('fd_replies.establish-failed', str(e))]
+    out = []
+    try:
+        rig.sent_messages()
+        calls = []
+        for i in range(case['n']):
+            res = []
+            rig.conn.callRemote('/o', 'Get', interface='a.b', destination='c.d').addBoth(res.append)
+            sent = [m for k, m in rig.sent_messages() if k == 'msg']
+            calls.append((sent[0]['serial'], res))
+        fds = {i: 100 + i for i in range(case['n'])}
+        if case['early']:
+            for i in case['order']:
+                rig.conn.fileDescriptorReceived(fds[i])
+        for i in case['order']:
+            serial, res = calls[i]
+            if not case['early']:
+                rig.conn.fileDescriptorReceived(fds[i])
+            sig, trees = {'h': ('h', [0]), 'hs': ('hs', [0, 'x']), 'ah': ('ah', [[0]])}[case['kind']]
+            N.deliver(rig.conn, R.encode_variant(serial, 2, 7000 + i, {5: serial, 9: 1}, sig, trees))
+        for i in range(case['n']):
+            want = {'h': fds[i], 'hs': [fds[i], 'x'], 'ah': [fds[i]]}[case['kind']]
+            res = calls[i][1]
+            if len(res) != 1 or not R.nf_equal(res[0], want):
+                out.append(Disc('fd_replies.wrong-descriptor', 'call %d (replies in order %r, descriptors %s) completed with %r, its '
+                                'reply carried descriptor %d' % (i, case['order'], 'all first' if case['early'] else 'one by one',
+                                                                res, fds[i])))
+        left = list(getattr(rig.conn, '_receivedFDs', []))
+        if left:
+            out.append(Disc('fd_replies.leftover-descriptors', repr(left)))
+    except Exception as e:
+        out.append(Disc(exc_key(e, 'fd_replies.exception'), exc_detail(e)))
+    finally:
+        rig.close_rig()
+    return out
+
+
 SUBCHECKS = [
     Subcheck('random', run_history, classify_history, strategy=lambda tier: history(tier),
              n={'quick': 300, 'thorough': 3000}),
     Subcheck('orders', run_history, classify_history, enumerate=enum_orders, shards={'quick': 4, 'thorough': 16},
              exhaustive_note='every ordering of {reply_i, error_i, deadline_i} for 2 calls, of {reply|error_i, deadline_i} '
                              'for 3 calls (quick); of all three event kinds for 3 calls = 362880 orders (thorough)'),
+    Subcheck('fd_replies', run_fd_replies, lambda c: (True, [c['kind'], 'early' if c['early'] else 'just_in_time']),
+             enumerate=enum_fd_replies, shards={'quick': 1, 'thorough': 1},
+             exhaustive_note='2-3 calls answered, in every order, by replies carrying one UNIX descriptor each (h, hs, ah)'),
     Subcheck('resend', run_resend, lambda c: (True, ['reply_' + c['reply']]), enumerate=enum_resend, shards={'quick': 1, 'thorough': 1},
              exhaustive_note='a timed-out call whose errback re-sends the same message object: second attempt answered in time '
                              '/ by an error / too late, with or without a second deadline, alone or next to other calls'),
